@@ -4,6 +4,7 @@ package fasta
 
 // C13: FASTA records survive write/read, re-wrapping and streaming unchanged.
 //
+// verif:bound C13 two-builds clause: two one-record lists (symbolic 3-character names, 5 and 0|5 symbolic letters) built one after the other, both texts held and then read back
 // verif:bound C13 record lists of 1..3 records; names 3 symbolic bytes (printable ASCII); sequences of length 0, 1, 5, 65536 and 262144 (quick) plus 65535, 65537, 70000, 262143, 300000 (thorough), every letter symbolic over A-Z a-z * -
 // verif:bound C13 re-wrapping: the harness's own writer with line widths 1, 3, 60, optional blank lines, ';' comment lines and CRLF line ends
 // verif:bound C13 streaming: channel capacities 0, 1, 1000; schedules explored at synchronisation-point granularity (default run-to-block schedule, its LIFO mirror, and all schedules deviating from it at <= 2 (quick) / 3 (thorough) choice points)
@@ -51,6 +52,24 @@ func Harness_C13_WriteRead() {
 		c13Same(recs, back, "write-read")
 	}
 	vCover("C13 an empty sequence", len(recs[0].Sequence) == 0)
+}
+
+// two lists written one after the other: the first text, still held, reads back as the first list
+func Harness_C13_TwoBuilds() {
+	first := []Fasta{{vBytes(3, c13Printable()), vBytes(5, c13Letters)}}
+	second := []Fasta{{vBytes(3, c13Printable()), vBytes(vChoice(2)*5, c13Letters)}}
+	var back1, back2 []Fasta
+	panicked := vPanics(func() {
+		t1 := Build(first)
+		t2 := Build(second)
+		back1 = Parse(bytes.NewReader(t1))
+		back2 = Parse(bytes.NewReader(t2))
+	})
+	vAssert(!panicked, "write-read-does-not-panic")
+	if !panicked {
+		c13Same(first, back1, "first-of-two-builds")
+		c13Same(second, back2, "second-of-two-builds")
+	}
 }
 
 // sequences beyond any fixed line buffer
